@@ -244,7 +244,11 @@ func judge(class string, key []byte, o *fw.Obs) {
 func judgeReuse(seed uint64, o *fw.Obs) {
 	o.Nontrivial()
 	r := fw.SubRng(int64(seed), "c11-reuse")
-	w := pow.New(1 + r.Intn(4))
+	var w *pow.Worker
+	nw := 1 + r.Intn(4)
+	if !o.Try("New", func() { w = pow.New(nw) }) {
+		return
+	}
 	buf := make([]byte, 1+r.Intn(80))
 	r.Read(buf)
 	ctx, cancel := context.WithTimeout(context.Background(), 300*time.Second)
@@ -292,7 +296,11 @@ func judgeReuse(seed uint64, o *fw.Obs) {
 func judgeShared(seed uint64, o *fw.Obs) {
 	o.Nontrivial()
 	r := fw.SubRng(int64(seed), "c11-shared")
-	w := pow.New(1 + r.Intn(4))
+	var w *pow.Worker
+	nw := 1 + r.Intn(4)
+	if !o.Try("New", func() { w = pow.New(nw) }) {
+		return
+	}
 	type job struct {
 		data []byte
 		t    float64
